@@ -195,7 +195,7 @@ Definition effective_rules (c : cfg) (outermost : bool) (tstr : str) : rm :=
 Theorem scoping c rec sn si fs g b :
   validate_body c rec sn (VStruct si fs) g b =
   on_fields c rec (match sn with [] => s_name si | _ => sn end)
-            (effective_rules c (match sn with [] => true | _ => false end) (s_tstr si)) fs b.
+            (effective_rules c (match sn with [] => true | _ => false end) (s_id si)) fs b.
 Proof. unfold validate_body, effective_rules. cbn [remove_ptr]. destruct sn; reflexivity. Qed.
 
 (* a programmatic rule for a field replaces its tag rule entirely; other fields keep theirs *)
